@@ -30,8 +30,8 @@
       keys a ModifyTable drops or re-points are live. *)
 From Coq Require Import List Bool Arith Permutation Sorted.
 From Atlas Require Import Plan.SortModel Plan.SortDfs Plan.SortReplay Plan.SortProofs Plan.SortDialect Plan.SortExamples.
-From Atlas Require Import Plan.SortTidbModel Plan.SortTidbProofs gen.Gen_TidbPriority.
-From Atlas Require Import Plan.SortSqliteModel Plan.SortSqliteProofs.
+From Atlas Require Import Plan.SortTidbModel Plan.SortTidbProofs Plan.SortTidbExcept gen.Gen_TidbPriority.
+From Atlas Require Import Plan.SortSqliteModel Plan.SortSqliteProofs Plan.SortTies.
 From Atlas Require Import Plan.SortObjModel Plan.SortGenProofs Plan.SortObjProofs Plan.SortObjTypes Plan.SortObjExamples.
 Import ListNotations.
 
@@ -154,17 +154,38 @@ Theorem C04_tidb_safe_refuted : exists cs c l,
   WF cs /\ consistent c cs /\ tidb_plan cs = TOk l /\ replay l c = None.
 Proof. exists ch_cs, ch_cat, ch_tidb. exact (conj ch_wf (conj ch_cons ch_tidb_runs)). Qed.
 
-(** The failing class, for ALL inputs: whenever a ModifyForeignKey of the change set points its new side at a table
-    that is not in the catalogue (i.e. that the change set has to create first), the TiDB order fails to replay --
-    with no hypothesis on the change set.  The converse (the TiDB plan of a WF change set replays on a consistent
-    catalogue when no key is re-pointed to a table the set creates) is the conjectured exact exception
-    C04_tidb_safe_except; it is NOT proved here (it needs split_ok for the flattened list, where a table is the
-    subject of several changes).  The harness evaluates it on every case of stage tidb (counters
-    exact:tidb-predicted-ok / -fail / MISPREDICTED: 16 770 of 16 770 predicted). *)
+(** The exception is exact.  The failing class, for ALL inputs and with no hypothesis on the change set: whenever a
+    ModifyForeignKey points its new side at a table that is not in the catalogue (i.e. that the change set has to create
+    first), the TiDB order fails to replay (C04_tidb_unsafe_class).  Conversely, for every well-formed change set and
+    consistent catalogue in which every re-pointed key points at a table of the catalogue, the TiDB order replays
+    (C04_tidb_safe_except: both DetachCycles branches; the stable priority sort of a list that is sorted by the sortMap
+    index resp. by planned / deferred is sorted by the lexicographic rank (priority, key); needs of the dumped table only
+    priority(AddTable) <= priority(AddForeignKey), priority(DropForeignKey) < priority(DropTable),
+    priority(ModifyForeignKey) < priority(DropTable)).  Together: C04_tidb_safe_exact.  These three are about
+    [tidb_order], the order of the atomic changes; the statement sources [tidb_plan] (each atomic change planned alone by
+    the MySQL planner) are covered by the tie and the oracle of stage tidb and by the witness of C04_tidb_safe_refuted. *)
 Theorem C04_tidb_unsafe_class : forall cs c l t tcs from to,
   In (ModifyTable t tcs) cs -> In (ModifyFK from to) tcs -> ~ In (qn (f_ref to)) (c_tabs c) ->
   tidb_order cs = TOk l -> replay l c = None.
 Proof. exact tidb_unsafe_class. Qed.
+
+Theorem C04_tidb_safe_except : forall cs c l,
+  WF cs -> consistent c cs ->
+  (forall t tcs from to, In (ModifyTable t tcs) cs -> In (ModifyFK from to) tcs -> In (qn (f_ref to)) (c_tabs c)) ->
+  tidb_order cs = TOk l -> exists c', replay l c = Some c'.
+Proof. intros cs c l HWF Hc Hex. exact (tidb_safe_except cs c HWF Hc Hex l). Qed.
+
+Theorem C04_tidb_safe_exact : forall cs c l,
+  WF cs -> consistent c cs -> tidb_order cs = TOk l ->
+  ((exists c', replay l c = Some c') <->
+   (forall t tcs from to, In (ModifyTable t tcs) cs -> In (ModifyFK from to) tcs -> In (qn (f_ref to)) (c_tabs c))).
+Proof.
+  intros cs c l HWF Hc Ho. split.
+  - intros [c' Hr] t tcs from to H1 H2.
+    destruct (in_dec Nat.eq_dec (qn (f_ref to)) (c_tabs c)) as [Hin|Hn]; [exact Hin|].
+    rewrite (tidb_unsafe_class cs c l t tcs from to H1 H2 Hn Ho) in Hr. discriminate.
+  - intros Hex. exact (tidb_safe_except cs c HWF Hc Hex l Ho).
+Qed.
 
 (** 6. Typed objects (round 5): change sets with PostgreSQL enum types -- AddObject / DropObject next to table changes
     whose columns use the types (SortObjModel.v: [xchange], [xdependsOn] with the arms AddTable/AddObject,
@@ -280,6 +301,24 @@ Theorem C04_sqlite_safe : forall cs c,
   WF cs -> consistent c cs -> exists c', sreplay (fst (sqlite_plan cs)) (snd (sqlite_plan cs)) c = Some c'.
 Proof. exact sqlite_safe. Qed.
 
+(** 8. What Go's unstable sort.Slice in DetachCycles can change (round 5; reusable by C20).  In the cycle-free branch
+    every tie-break gives a plan that is sorted by the rank [ra sorted] = (sortMap index, drops behind); two changes of
+    equal rank -- the only ones whose order a tie-break can swap -- never depend on one another; two tie-breaks give
+    plans that are permutations of one another and order every two changes of different rank alike.  (In the cycle
+    branch DetachCycles does not sort: the plan is a function of the input list.) *)
+Theorem C04_ties_independent : forall cs sorted x y,
+  WF cs -> sortMap cs = SMOk sorted -> In x cs -> In y cs -> x <> y ->
+  ra sorted x = ra sorted y -> dependsOn x y = false /\ dependsOn y x = false.
+Proof. exact ties_independent. Qed.
+
+Theorem C04_tiebreaks_agree : forall cs sorted S1 S2 o1 o2,
+  WF cs -> sortMap cs = SMOk sorted -> detach_spec cs S1 -> detach_spec cs S2 ->
+  SortChanges S1 = Some o1 -> SortChanges S2 = Some o2 ->
+  Permutation o1 o2 /\
+  (forall pre x post y, o1 = pre ++ x :: post -> In y pre -> ra sorted y <> ra sorted x ->
+     exists pre' post', o2 = pre' ++ x :: post' /\ In y pre').
+Proof. exact tiebreaks_agree. Qed.
+
 Print Assumptions C04_total.
 Print Assumptions C04_total_parts.
 Print Assumptions C04_once.
@@ -296,6 +335,8 @@ Print Assumptions C04_tidb_order.
 Print Assumptions C04_tidb_once.
 Print Assumptions C04_tidb_safe_refuted.
 Print Assumptions C04_tidb_unsafe_class.
+Print Assumptions C04_tidb_safe_except.
+Print Assumptions C04_tidb_safe_exact.
 Print Assumptions C04_objects_commute.
 Print Assumptions C04_total_objects.
 Print Assumptions C04_once_objects.
@@ -308,6 +349,8 @@ Print Assumptions C04_safe_objects_full_any_tiebreak.
 Print Assumptions C04_safe_objects_full.
 Print Assumptions C04_sqlite_plan_spec.
 Print Assumptions C04_sqlite_safe.
+Print Assumptions C04_ties_independent.
+Print Assumptions C04_tiebreaks_agree.
 
 (** Non-vacuity. *)
 (* C04_total / C04_once: a 3-cycle of created tables is planned (6 changes out of 3). *)
@@ -459,3 +502,18 @@ Example C04_sqlite_plan_spec_ex :
   = (false, [AddTable (des 1) [mkFK 20 (des 1) (des 0)]; ModifyTable (des 0) [Other 2]; AddTable (des 2) []]) /\
   fst (sqlite_plan [ModifyTable (des 0) [Other 1]]) = true.
 Proof. vm_compute. split; reflexivity. Qed.
+
+(* C04_ties_independent / C04_tiebreaks_agree: in the chain example CREATE TABLE 2 and DROP TABLE 3 ... have different
+   ranks, CREATE TABLE 2 (index 0) and the unrelated rank-0 changes tie; the two tie-breaks of C04_safe_ex_tiebreak *)
+Example C04_ties_ex :
+  sortMap ch_cs = SMOk [2; 1; 0] /\
+  ra [2; 1; 0] (AddTable (des 2) []) = 0 /\ ra [2; 1; 0] (DropTable (cur 3) []) = 4 /\
+  ra [2; 1; 0] (AddTable (des 1) [mkFK 22 (des 1) (des 2)]) = 1 /\
+  dependsOn (AddTable (des 1) [mkFK 22 (des 1) (des 2)]) (AddTable (des 2) []) = true.
+Proof. vm_compute. repeat split; reflexivity. Qed.
+
+(* C04_tidb_safe_except: the selfref example (no re-pointed key; a cycle) is planned safely by the TiDB order *)
+Example C04_tidb_safe_except_ex :
+  WF sr_cs /\ consistent sr_cat sr_cs /\
+  exists l c', tidb_order sr_cs = TOk l /\ replay l sr_cat = Some c' /\ length l = 5.
+Proof. split; [exact sr_wf|]. split; [exact sr_cons|]. eexists; eexists. vm_compute. repeat split; reflexivity. Qed.
